@@ -29,7 +29,8 @@ Lemma z_mcstep_spec s t f : ZInv s ->
   (raised = false -> tout = z_t s1 /\ z_back s <= tout <= t \/ tout = z_t s /\ z_t s = t) /\
   (raised = false -> z_back s <= t <= z_front s -> tout = t) /\
   (raised = true -> s1 = s /\ (z_isset s = false \/ t < z_back s)) /\
-  z_front s <= z_front s1.
+  z_front s <= z_front s1 /\
+  (z_isset s = true -> z_back s1 <= z_t s <= z_front s1).
 Proof.
   intros HI Hf. unfold z_mcstep.
   destruct (z_isset s) eqn:Ei; simpl.
